@@ -30,6 +30,43 @@ CHECKS = {
             "Discretisation ties are don't-care (skipped, counted). Values outside the alphabets / larger grids only via structured "
             "families. Known finding: value range < 1e-9 is treated as constant.",
             "3 C04"),
+    "C03": ("exploration", "bex", "bounded exhaustive enumeration of spectra x configurations vs a reference model of PTM1/2/3 given the label map",
+            "Every ternary spectrum on 2x4 (and 2x5/1x8 with rotating configurations; 3x4/2x6 thorough), complete 2-/3-bump families on "
+            "4x6/5x8, x PTM1/2/3 x ihmax x requested count (below/equal/above detected) x wind/depth/agefac/wscut menus (full 324-config "
+            "product on a structured 3x4 family), at numpy level and through the accessor on (time)/(time,site)/(lat,lon) layouts, "
+            "numpy- and dask-backed, smoothing on/off: bin-is-input-or-zero, disjointness, exact sum, count, wind-sea rule, Hs order.",
+            "The label map is taken from specpart.partition (C04's subject) and celerity from the library (C01's subject). Classification "
+            "clauses are don't-care within 1e-9 of a threshold.",
+            "3 C03"),
+    "C05": ("exploration", "bex", "exhaustive metamorphic exploration of storage transformations (dimension order x layout x dtype x stored direction sequence)",
+            "Each of ~45 operations (all statistics, smooth, interp, rotate, split, limited stats, scale_by_hs, ptm1..5, bbox) is run on "
+            "every transformed copy of a 4-D dataset and a 2-D array (quick: every factor value alone and every pair of factor values; "
+            "thorough: the full 24x4x2x16 product) and compared, after re-alignment by labels, with the canonical result.",
+            "One base dataset per seed (float32-exact, pairwise distinct values). Descending directions are excused for the watershed "
+            "methods as the statement allows.",
+            "3 C05"),
+    "C12": ("exploration", "fmt", "exhaustive enumeration of native-convention datasets built by independent encoders, bin-by-bin against the physical truth",
+            "A physical truth E(f,theta_from) on enumerated small grids is encoded by independent encoders into the WW3, SWAN-netCDF, WWM, "
+            "ERA5 and NDBC conventions (all direction orders, every subset of optional variables, lon/lat layouts, backings, dtypes); "
+            "read_dataset and from_<model> must return the wavespectra convention with every bin density/direction, the variance, winds "
+            "and labels equal to the truth, and must not modify the caller's dataset.",
+            "In-memory datasets only (netCDF4/zarr are not installed, so the file-opening halves cannot run).",
+            "3 C12"),
+    "C13": ("exploration", "fmt", "exhaustive enumeration of synthetic files written by independent format encoders, decoded values vs encoder inputs",
+            "Independent text encoders for SWAN ASCII (all header/block variants), TRIAXYS, NDBC ASCII (realtime/history), Spotter CSV/JSON, "
+            "Datawell, Obscape and WW3 station files generate files from enumerated contents (records in every order, sizes, value "
+            "patterns, header variants, one/several files); times, freq, dir, positions and densities read back must equal the encoder "
+            "inputs to the printed resolution, sorted by time; for 1D+moments readers the direction integral must give back E(f).",
+            "XWaves is not covered (no independent description of the MAT layout). Known finding: multi-point WW3 station files.",
+            "3 C13"),
+    "C19": ("model_checking", "hist", "exhaustive enumeration of partition histories plus explicit-state BFS over tracking states, executed on the real function",
+            "Every history of P partitions x T steps over a threshold-relative cell alphabet (P<=3,T<=3 quick; larger thorough) x 18 "
+            "parameter/wind configurations runs through np_track_partitions and is checked against the statement's invariants with "
+            "independently recomputed thresholds; a layered BFS over (last row, id pattern) states to T=6 re-executes the real function "
+            "for every transition and checks prefix-closure and state-determinism; track_partitions on site batches and ptm1_track end to end.",
+            "Only 'only-if' clauses are demanded (a carried id must be within thresholds), never an obligation to continue; cases within "
+            "1e-9 of a threshold are excluded by construction of the alphabet.",
+            "3 C19"),
 }
 
 PENDING = {
